@@ -25,6 +25,7 @@ type Writer struct {
 	FailFlush int // 1-based index of the Flush that fails; 0 = never
 	Flushes   int
 	cond      *sync.Cond
+	gated     bool        // while gated, Write blocks: a client that stopped reading
 	Sent      http.Header // snapshot of headers at first write
 }
 
@@ -47,9 +48,20 @@ func (w *Writer) WriteHeader(code int) {
 
 var ErrInjected = errors.New("injected write error")
 
+// Gate makes the following Write calls block (on) or releases them (off).
+func (w *Writer) Gate(on bool) {
+	w.mu.Lock()
+	w.gated = on
+	w.cond.Broadcast()
+	w.mu.Unlock()
+}
+
 func (w *Writer) Write(b []byte) (int, error) {
 	w.mu.Lock()
 	defer w.mu.Unlock()
+	for w.gated {
+		w.cond.Wait()
+	}
 	if w.Status == 0 {
 		w.Status = 200
 		w.Sent = w.hdr.Clone()
